@@ -732,23 +732,14 @@ class SSHTransportBase(protocol.Protocol):
         """
         self.buf = self.buf + data
         if not self.gotVersion:
-            if len(self.buf) > 4096:
-                self.sendDisconnect(
-                    DISCONNECT_CONNECTION_LOST,
-                    b"Peer version string longer than 4KB. "
-                    b"Preventing a denial of service attack.",
-                )
-                return
-
-            if self.buf.find(b"\n", self.buf.find(b"SSH-")) == -1:
-                return
-
             # RFC 4253 section 4.2 ask for strict `\r\n` line ending.
             # Here we are a bit more relaxed and accept implementations ending
             # only in '\n'.
             # https://tools.ietf.org/html/rfc4253#section-4.2
             lines = self.buf.split(b"\n")
-            for p in lines:
+            # The last element is an unterminated line (or empty): only
+            # complete lines can be the version line or precede it.
+            for i, p in enumerate(lines[:-1]):
                 if p.startswith(b"SSH-"):
                     self.gotVersion = True
                     # Since the line was split on '\n' and most of the time
@@ -758,11 +749,18 @@ class SSHTransportBase(protocol.Protocol):
                     if remoteVersion not in self.supportedVersions:
                         self._unsupportedVersionReceived(remoteVersion)
                         return
-                    i = lines.index(p)
                     self.buf = b"\n".join(lines[i + 1 :])
+                    break
             if not self.gotVersion:
                 # Only lines preceding the version string (RFC 4253 section
-                # 4.2) have been received so far; keep waiting for it.
+                # 4.2) have been received so far; keep waiting for it, within
+                # limits.
+                if len(self.buf) > 4096:
+                    self.sendDisconnect(
+                        DISCONNECT_CONNECTION_LOST,
+                        b"Peer version string longer than 4KB. "
+                        b"Preventing a denial of service attack.",
+                    )
                 return
         packet = self.getPacket()
         while packet:
